@@ -588,7 +588,9 @@ func runC04(c *Ctx) {
 		// nodes appended to a domain node set are members of validNodes
 		lcd := p.Func(pkgTopo, "", "lowestCommonDomainID")
 		nApp := 0
-		for _, in := range instrsIn(sub, func(in ssa.Instruction) bool {
+		// (the loops may live in helpers of subSetNodesFn: the map of the membership test is then a parameter, read as
+		// the actual argument along the chain of call sites)
+		for _, dh := range p.deepFind(sub, func(in ssa.Instruction) bool {
 			call, ok := in.(*ssa.Call)
 			if !ok {
 				return false
@@ -599,7 +601,16 @@ func runC04(c *Ctx) {
 			}
 			tk := typeKey(call.Type())
 			return strings.HasSuffix(tk, "node_info.NodeSet") && !strings.HasPrefix(tk, "[]")
-		}) {
+		}, 2) {
+			in := dh.In
+			liftToRoot := func(t *Term) *Term {
+				for i := len(dh.Chain) - 1; i >= 0; i-- {
+					if cs, ok := dh.Chain[i].(ssa.CallInstruction); ok {
+						t = t.subst(callActuals(cs))
+					}
+				}
+				return t
+			}
 			nApp++
 			var elem *Term
 			if ev := appendedElem(in.(*ssa.Call).Common().Args[1]); ev != nil {
@@ -609,7 +620,7 @@ func runC04(c *Ctx) {
 				if !(f.Pol && f.T.Op == "extract" && f.T.Name == "1" && f.T.Args[0].Op == "lookup") {
 					return false
 				}
-				m, k := f.T.Args[0].Args[0], f.T.Args[0].Args[1]
+				m, k := liftToRoot(f.T.Args[0].Args[0]), f.T.Args[0].Args[1]
 				return m.Op == "extract" && m.Name == "2" && m.Args[0].isCallTo(lcd) && k.lastField() == "Name" && elem != nil && sameTerm(k.Args[0], elem)
 			})
 			c.Check(ok, "O6", "DOM", funcKey(sub)+": a domain's node set contains only nodes of the incoming node set that carry every level label", instrPos(in), trunc(d, 120), "a domain node set is no longer intersected with the valid nodes of the incoming node set: a nested sub-group can leave its parent's domain, and nodes lacking the topology labels can be used")
